@@ -103,6 +103,8 @@ pub struct Env {
     pub mmap_fail_from: Option<u64>,
     /// the `mprotect` call with this index fails
     pub mprotect_fail_at: Option<u64>,
+    /// every `mprotect` whose range overlaps [start, end) fails (a page that refuses to become writable)
+    pub mprotect_fail_range: Option<(u64, u64)>,
     /// page size answered in pass-through mode (None = the real one)
     pub page_size_override: Option<u64>,
     /// regions (address, length) snapshotted at every logged call
@@ -125,6 +127,7 @@ impl Env {
             n_flush: 0,
             mmap_fail_from: None,
             mprotect_fail_at: None,
+            mprotect_fail_range: None,
             page_size_override: None,
             watch: Vec::new(),
             arena_owned: std::collections::BTreeSet::new(),
@@ -179,6 +182,7 @@ pub fn reset() {
         e.n_flush = 0;
         e.mmap_fail_from = None;
         e.mprotect_fail_at = None;
+        e.mprotect_fail_range = None;
         e.page_size_override = None;
         e.watch.clear();
         e.log_enabled = true;
@@ -406,7 +410,7 @@ pub unsafe extern "C" fn mprotect(addr: *mut rl::c_void, len: rl::size_t, prot: 
         let w0 = if e.log_enabled { e.watch_snapshot() } else { Vec::new() };
         let idx = e.n_mprotect;
         e.n_mprotect += 1;
-        let ret = if e.mprotect_fail_at == Some(idx) { -1 } else { rl::mprotect(addr, len, prot) };
+        let ret = if e.mprotect_fail_at == Some(idx) || e.mprotect_fail_range.map(|(s, t)| (addr as u64) < t && (addr as u64 + len as u64) > s).unwrap_or(false) { -1 } else { rl::mprotect(addr, len, prot) };
         if e.log_enabled {
             e.log.push(Call { kind: Kind::Mprotect, a: addr as u64, b: len as u64, c: prot as u64, ret: ret as i64, snap: None, watch: w0 });
         }
